@@ -9,8 +9,7 @@ Model: `SquidModel/Cc/*.lean` (HttpHdrCc::parse, HttpHdrCc::packInto, strListGet
 httpHeaderParseQuotedString, the directive table regenerated into `Gen/CcDirectives.lean`).
 `view c t` = what the accessor pair `isSet(t)` / `hasX(&value)` reports for directive `t`.
 -/
-import SquidModel.Cc.Exact
-import SquidModel.Cc.QuotedLemmas
+import SquidModel.Cc.Roundtrip
 
 namespace SquidModel.C29
 open SquidModel SquidModel.Cc
@@ -21,21 +20,13 @@ open SquidModel SquidModel.Cc
 `t` that records anything records (`effective`), and nothing if there is no such item. Items are the elements
 `strListGetItem` delivers; the type of an item is the case-insensitive table lookup of the text before its first `=`. -/
 theorem parse_exact (s : Bytes) (t : CcType) (ho : t ≠ .other) (he : t ≠ .enumEnd) :
-    view (parse s) t = ((items s).filter (fun it => itemType it = t)).findSome? (effective t) := by
-  unfold parse parseFrom
-  rw [foldl_view _ _ lite_init t ho he, view_init]
-  simp
+    view (parse s) t = ((items s).filter (fun it => itemType it = t)).findSome? (effective t) :=
+  parse_view s t ho he
 
 /-- The unknown directives are kept verbatim, in order, joined by ", ". -/
 theorem parse_other_exact (s : Bytes) :
-    (parse s).other = joinItems (((items s).filter (fun it => itemType it = .other)).map (fun it => it.1.take it.2)) := by
-  unfold parse parseFrom
-  rw [foldl_other, foldl_join]
-  · simp
-  · intro e he
-    simp only [List.mem_map, List.mem_filter] at he
-    obtain ⟨it, ⟨hit, _⟩, rfl⟩ := he
-    exact items_texts_ne s _ (List.mem_map.mpr ⟨it, hit, rfl⟩)
+    (parse s).other = joinItems (((items s).filter (fun it => itemType it = .other)).map (fun it => it.1.take it.2)) :=
+  parse_other s
 
 /-- Every item the splitter delivers is a well-formed element: non-empty, not starting with a separator octet, not ending in
 white space, without a comma outside quotes; and every item but the last ends outside quotes. -/
@@ -102,57 +93,52 @@ theorem valid_numeric_exact (ds rest : Bytes) (hne : ds ≠ []) (hd : ∀ d ∈ 
   parseInt_digits ds rest hne hd hr hfit
 
 /-- Whatever is recorded for a numeric directive is a non-negative `int` (so "not negative" and "fits" hold of the result). -/
-theorem numeric_recorded_range (it : Bytes × Nat) (v : Int) (h : numOf it = some v) : 0 ≤ v ∧ v ≤ INT_MAX := by
-  unfold numOf at h
-  cases hp : itemArg it with
-  | none => simp [hp] at h
-  | some p =>
-    simp only [hp] at h
-    split at h
-    · rename_i hc
-      simp only [Option.some.injEq] at h
-      subst h
-      refine ⟨hc.2, ?_⟩
-      rw [parseInt_snd, INT_MAX_eq]
-      exact (atoiC_range p).2
-    · simp at h
+theorem numeric_recorded_range (it : Bytes × Nat) (v : Int) (h : numOf it = some v) : 0 ≤ v ∧ v ≤ 2147483647 :=
+  numOf_range it v h
 
-/-- "max-age=4294967297" -/
-def wWrap : Bytes := [109,97,120,45,97,103,101,61,52,50,57,52,57,54,55,50,57,55]
 /-- "max-age=10x" -/
 def wGarbage : Bytes := [109,97,120,45,97,103,101,61,49,48,120]
+/-- "max-age=+5" -/
+def wSign : Bytes := [109,97,120,45,97,103,101,61,43,53]
+/-- "max-age= 7" -/
+def wSpace : Bytes := [109,97,120,45,97,103,101,61,32,55]
+/-- "max-age=4294967297" -/
+def wBig : Bytes := [109,97,120,45,97,103,101,61,52,50,57,52,57,54,55,50,57,55]
 
 /- FULL STATEMENT (false of the code):
    theorem invalid_numeric_absent (it) (h : ¬ (the argument of `it` is 1*DIGIT with value ≤ INT_MAX)) : numOf it = none -/
 
-/-- Counterexample 1: 4294967297 does not fit, yet max-age is recorded as 1 (`atoi` keeps the low 32 bits). -/
-theorem invalid_numeric_absent_counterexample_wrap :
-    view (parse wWrap) .maxAge = some (.num 1) := by decide +kernel
-
-/-- Counterexample 2: "10x" is not a number, yet max-age is recorded as 10 (`atoi` stops at the first non-digit). -/
+/-- Counterexample 1: "10x" is not a number, yet max-age is recorded as 10 (`strtol` stops at the first non-digit and the end
+pointer is not compared with the end of the item). -/
 theorem invalid_numeric_absent_counterexample_garbage :
     view (parse wGarbage) .maxAge = some (.num 10) := by decide +kernel
 
+/-- Counterexample 2: a sign is accepted: "+5" is recorded as 5. -/
+theorem invalid_numeric_absent_counterexample_sign :
+    view (parse wSign) .maxAge = some (.num 5) := by decide +kernel
+
+/-- Counterexample 3: white space after `=` is accepted: " 7" is recorded as 7. -/
+theorem invalid_numeric_absent_counterexample_space :
+    view (parse wSpace) .maxAge = some (.num 7) := by decide +kernel
+
+/-- (what used to be the wrap-around defect is gone: a value that does not fit is absent) -/
+theorem big_numeric_absent_example : view (parse wBig) .maxAge = none := by decide +kernel
+
 /-- PARTIAL: invalid numeric arguments are treated as absent OUTSIDE the excluded region.
-Excluded region (explicit in the hypotheses): arguments in which `atoi` finds a number although they are not 1*DIGIT
-(leading white space / sign, trailing text), and 1*DIGIT arguments with 2^32 ≤ value < 2^63 - 1.
-Covered: (a) no argument, (b) text without a number (`NoNumber`), (c) 1*DIGIT with 2^31 ≤ value < 2^32 or value ≥ 2^63 - 1. -/
+Excluded region (explicit by omission from the hypotheses): arguments in which `strtol` finds a number although they are not
+1*DIGIT (leading white space, a sign, trailing text).
+Covered: (a) no argument, (b) text without a number (`NoNumber`), (c) 1*DIGIT of any length whose value exceeds INT_MAX. -/
 theorem invalid_numeric_absent_partial (it : Bytes × Nat)
     (h : itemArg it = none ∨
          (∃ p, itemArg it = some p ∧ NoNumber p) ∨
          (∃ ds rest, itemArg it = some (ds ++ rest) ∧ ds ≠ [] ∧ (∀ d ∈ ds, isDigitC d = true) ∧
-            (∀ c, rest.head? = some c → isDigitC c = false) ∧
-            2147483648 ≤ decVal ds ∧ (decVal ds < 4294967296 ∨ 9223372036854775807 ≤ decVal ds))) :
+            (∀ c, rest.head? = some c → isDigitC c = false) ∧ INT_MAX < (decVal ds : Int))) :
     numOf it = none := by
   unfold numOf
   rcases h with h | ⟨p, hp, hn⟩ | ⟨ds, rest, hp, hne, hd, hr, hbig⟩
   · simp [h]
   · simp [hp, parseInt_noNumber p hn]
-  · have := parseInt_digits_negative ds rest hne hd hr hbig
-    simp only [hp]
-    split
-    · rename_i hc; omega
-    · rfl
+  · simp [hp, parseInt_digits_toobig ds rest hne hd hr hbig]
 
 /-- … and an absent numeric value means: the directive is not recorded (max-age, s-maxage, min-fresh, stale-if-error),
 or recorded without a value (max-stale: `MAX_STALE_ANY`). -/
@@ -177,6 +163,40 @@ theorem quoted_pair_counterexample_backslash : parseQuoted [34, 97, 92, 92, 98, 
 /-- Counterexample: HTAB (legal in a quoted-string) makes the whole argument invalid. -/
 theorem quoted_htab_counterexample : parseQuoted [34, 97, 9, 98, 34] 5 = none := by decide +kernel
 
+/-! ## 4. "packing the parsed directives and parsing the result again yields the same directives" -/
+
+/- FULL STATEMENT (false of the code): for every field value `s`, parse (pack (parse s)) shows the same directives as parse s. -/
+
+/-- "foo" -/
+def wOther : Bytes := [102, 111, 111]
+
+/-- Counterexample: a value with unknown directives only. `parse` keeps `foo` in `other` but sets no mask bit (returns false),
+`packInto` prints nothing, and the second parse has lost the directive. -/
+theorem pack_parse_roundtrip_counterexample :
+    (parse wOther).other = wOther ∧ (parse wOther).mask = 0 ∧ pack (parse wOther) = [] ∧
+      (parse (pack (parse wOther))).other = [] := by decide +kernel
+
+/-- PARTIAL (excluded region as hypothesis: `parse` recorded no known directive, i.e. returned false):
+for EVERY field value on which `parse` succeeds, packing and parsing again shows exactly the same directives through the
+accessors — every known directive (presence, numeric value, field list) and the unknown ones. -/
+theorem pack_parse_roundtrip_partial (s : Bytes) (h : (parse s).mask ≠ 0) :
+    (∀ t, t ≠ .other → t ≠ .enumEnd → view (parse (pack (parse s))) t = view (parse s) t) ∧
+      (parse (pack (parse s))).other = (parse s).other :=
+  roundtrip_of_canon (parse s) (parse_canon s).1 (parse_canon s).2 h
+
+/-- the invariants of every parse result that the round trip rests on: recorded numbers are non-negative `int`s, recorded
+field lists contain no DQUOTE, backslash, control octet or DEL (so they can be printed between quotes unescaped), and `other`
+is a ", "-join of well-formed unknown directives -/
+theorem parse_result_invariants (s : Bytes) : CanonBase (parse s) ∧ OtherOk (parse s) [] := parse_canon s
+
+/-- the packed text of a successful parse is the ", "-join of the printed known directives (in enumerator order) and the
+unknown directives -/
+theorem pack_shape (s : Bytes) (h : (parse s).mask ≠ 0) :
+    ∃ L, (parse s).other = joinItems L ∧
+      pack (parse s) = joinItems (packedDirs (parse s) Gen.CcDirectives.attrs ++ L) := by
+  obtain ⟨L, hL, hg, _⟩ := (parse_canon s).2
+  exact ⟨L, hL, pack_eq_join _ h L hL (fun e he => (hg e he).1.ne)⟩
+
 /-! ## non-vacuity -/
 
 /-- `public, max-age=5, x=1` -/
@@ -189,5 +209,15 @@ example : GoodItem [112,117,98,108,105,99] := ⟨by decide, by decide, by decide
 example : ¬ NoNumber [49, 48, 120] := by unfold NoNumber; decide
 example : NoNumber [120, 49] := by unfold NoNumber; decide
 example : isPlainQ 97 = true ∧ isPlainQ 44 = true ∧ isPlainQ 32 = true := by decide
+/-- the round-trip hypothesis is satisfiable, and the round trip is not trivially about empty states -/
+example : (parse wMixed).mask ≠ 0 := by decide +kernel
+example : pack (parse wMixed) = wMixed := by decide +kernel
+/-- `private="a, b", no-cache, max-stale, max-age=0, foo="x,y"` packs in enumerator order -/
+def wLists : Bytes := [112,114,105,118,97,116,101,61,34,97,44,32,98,34,44,32,110,111,45,99,97,99,104,101,44,32,109,97,120,45,115,116,97,108,101,44,32,109,97,120,45,97,103,101,61,48,44,32,102,111,111,61,34,120,44,121,34]
+example : view (parse wLists) .private_ = some (.list [97, 44, 32, 98]) := by decide +kernel
+example : view (parse wLists) .noCache = some (.list []) := by decide +kernel
+example : view (parse wLists) .maxStale = some (.num 2147483647) := by decide +kernel
+example : (parse wLists).other = [102,111,111,61,34,120,44,121,34] := by decide +kernel
+example : parse (pack (parse wLists)) = parse wLists := by decide +kernel
 
 end SquidModel.C29
